@@ -453,7 +453,9 @@ def run(cmd, cwd, timeout=3600):
 
 
 def cargo_build(root, jobs=4):
-    """Returns (ok, errors) where errors = [(part index or None, line or None, rendered message)]."""
+    """Returns (ok, errors) where errors = [(part index or None, line or None, rendered message, package name,
+    touches_lambda)]; touches_lambda = the error is reported while compiling rlib_lambda itself or one of its spans
+    (incl. the macro backtrace) lies in the rlib/lambda sources."""
     r = run(["cargo", "build", "--offline", "-j", str(jobs), "--message-format=json"], root)
     errs = []
     for line in r.stdout.split("\n"):
@@ -471,19 +473,24 @@ def cargo_build(root, jobs=4):
         pkg = m.get("target", {}).get("name", "")
         part = int(pkg[4:]) if re.fullmatch(r"part\d+", pkg) else None
         lines = []
+        in_lambda = pkg == "rlib_lambda"
         for sp in msg.get("spans", []):
             # walk out of macro expansions to the call site inside the generated file
             cur = sp
+            found = False
             while cur is not None:
-                if cur.get("file_name", "").endswith("src/lib.rs") and re.search(r"part\d+/src/lib\.rs$", cur["file_name"]):
+                fn = cur.get("file_name", "")
+                if "rlib/lambda/" in fn.replace("\\", "/"):
+                    in_lambda = True
+                if not found and fn.endswith("src/lib.rs") and re.search(r"part\d+/src/lib\.rs$", fn):
                     lines.append((0 if sp.get("is_primary") else 1, cur["line_start"]))
-                    break
+                    found = True
                 exp = cur.get("expansion")
                 cur = exp["span"] if exp else None
         lines.sort()
-        errs.append((part, lines[0][1] if lines else None, (msg.get("rendered") or msg.get("message") or "")[:1500]))
+        errs.append((part, lines[0][1] if lines else None, (msg.get("rendered") or msg.get("message") or "")[:1500], pkg, in_lambda))
     if r.returncode != 0 and not errs:
-        errs.append((None, None, (r.stderr or "")[-1500:]))
+        errs.append((None, None, (r.stderr or "")[-1500:], "", False))
     return r.returncode == 0, errs
 
 
@@ -598,10 +605,13 @@ def wiring_of_expansion(blocks, sid, t):
     blk = blocks.get(("g", sid, t))
     if blk is None:
         return None, f"function g_{sid}_{t} not found in the expansion"
-    blk = re.sub(r"macro_rules!\s*go\s*\{.*?\n\s*\}\n", "\n", blk, count=1, flags=re.S) if "macro_rules!" in blk else blk
-    d = re.search(r"\bfn _lambda_name_\(", blk)
+    # drop the (unexpanded) definition of the local macro; it is printed inside the inner fn
+    blk = re.sub(r"macro_rules!\s*\w+\s*\{.*?\n\s*\}\n", "\n", blk, count=1, flags=re.S) if "macro_rules!" in blk else blk
+    # the inner fn is found structurally (the first fn item nested in g_<sid>_<t>), whatever the macro calls it
+    d = re.search(r"\bfn\s+([A-Za-z_]\w*)\s*\(", blk)
     if not d:
-        return None, "no inner fn _lambda_name_ in the expansion"
+        return None, "no inner fn in the expansion"
+    inner = d.group(1)
     close = balanced(blk, d.end() - 1)
     params = split_top(re.sub(r"\s+", " ", blk[d.end():close]))
     rest = blk[close + 1:]
@@ -617,11 +627,11 @@ def wiring_of_expansion(blocks, sid, t):
             plist.append("&" + name)
         else:
             plist.append(name)
-    # every call of _lambda_name_ after the definition: recursive calls (inside the fn) and the closure's call
+    # every call of the inner fn after its definition: recursive calls (inside the fn) and the closure's call
     calls = []
     pos = close
     while True:
-        c = re.search(r"\b_lambda_name_\(", blk[pos:])
+        c = re.search(r"\b" + re.escape(inner) + r"\s*\(", blk[pos:])
         if not c:
             break
         s0 = pos + c.end() - 1
@@ -629,7 +639,7 @@ def wiring_of_expansion(blocks, sid, t):
         calls.append((s0, [re.sub(r"\s+", " ", a) for a in split_top(blk[s0 + 1:e0])]))
         pos = e0
     if not calls:
-        return None, "no call of _lambda_name_ in the expansion"
+        return None, f"no call of the inner fn `{inner}` in the expansion"
     # the closure is the last call: `|a0: T, …| { _lambda_name_(a0, …, &c, &mut c) }`
     clo_pos, clo_args = calls[-1]
     before = blk[:clo_pos]
@@ -643,7 +653,7 @@ def wiring_of_expansion(blocks, sid, t):
     ctail = [re.sub(r"&\s*mut\s+", "&mut ", a).replace("& ", "&") for a in clo_args[nargs:]]
     rec_tails = sorted({",".join(a[len(a) - ncap:] if ncap else []) for _, a in calls[:-1]})
     wiring = f"fn({','.join(plist)})->{ret} rec(%s) clo({','.join(cparams)};{','.join(cargs)};{','.join(ctail)})"
-    return (wiring, rec_tails, [len(a) for _, a in calls[:-1]]), None
+    return (wiring, rec_tails, [len(a) for _, a in calls[:-1]], inner), None
 
 
 # ------------------------------------------------------------------------------------------------
@@ -660,7 +670,7 @@ def replay(case, repo, keep=False, out=sys.stdout):
         lm = write_workspace(root, repo, [(sh, x) for x in ts], 1, seed)
         ok, errs = cargo_build(root)
         print(f"shape: {case}\ncrate: {root}\ncompiles: {ok}", file=out)
-        for part, line, msg in errs:
+        for part, line, msg, _pkg, _il in errs:
             print(f"error at {locate(lm, part, line)}:\n{msg}", file=out)
         if ok:
             problem, res = run_runner(root)
